@@ -536,12 +536,12 @@ class ImplicitLeapfrogIntegrator(Integrator):
         state.pos = self._solve_fixed_point(fixed_point_func, pos_init)
 
     def _step(self, state: ChainState, time_step: float) -> None:
-        self._step_a(state, time_step)
-        self._step_b_fwd(state, time_step)
-        self._step_c_fwd(state, time_step)
-        self._step_c_adj(state, time_step)
-        self._step_b_adj(state, time_step)
-        self._step_a(state, time_step)
+        self._step_a(state, time_step / 2)
+        self._step_b_fwd(state, time_step / 2)
+        self._step_c_fwd(state, time_step / 2)
+        self._step_c_adj(state, time_step / 2)
+        self._step_b_adj(state, time_step / 2)
+        self._step_a(state, time_step / 2)
 
 
 class ImplicitMidpointIntegrator(Integrator):
